@@ -593,6 +593,24 @@ Section FinalStage.
     - exact I.
   Qed.
 
+  Lemma expand_word_single_refines_lemma w e :
+    match spec_word_single w e with
+    | SOk v e' => expand_word_single w e = Ok v e'
+    | SErr k => expand_word_single w e = Err k
+    | SUnspec => True
+    end.
+  Proof.
+    destruct expand_refines_sem_all as [_ [_ [_ [_ Hw]]]].
+    pose proof (word_top_agree w true e (Hw w)) as H. cbn [negb] in H.
+    unfold expand_word_single, expand_word, spec_word_single, agree in *.
+    destruct (top_or_empty (sem_word false) word_is_empty w e) as [pfs e'|k|].
+    - destruct H as [ph [-> [Ha _]]].
+      destruct (ifs_value e') as [iv|] eqn:Ei; [|exact I].
+      rewrite <- chars_of_abs, (abs_ifs_join _ _ _ Ei), Ha. reflexivity.
+    - rewrite H. reflexivity.
+    - exact I.
+  Qed.
+
   Lemma expand_words_refines_lemma ws e :
     agree_fields (expand_words is_ws ws e) (spec_words_fields is_ws ws e).
   Proof.
